@@ -130,11 +130,11 @@ E3_ASSUME = [
 def e3_stage(prop, quick_len, thorough_len, cfgs_q, cfgs_t, nested_q=1, nested_t=2, classes=0x7f):
     return dict(name="crash", driver="crash", flavour="asan", args=["--prop", prop, "--classes", str(classes)],
                 quick=["--cfgs", cfgs_q, "--len", str(quick_len), "--nested", str(nested_q), "--scripted", "1"],
-                thorough=["--cfgs", cfgs_t, "--len", str(thorough_len), "--nested", str(nested_t), "--wide", "1", "--scripted", "2"])
+                thorough=["--cfgs", cfgs_t, "--len", str(thorough_len), "--nested", str(nested_t), "--scripted", "2"])
 
 
 CFG_Q = "B1;B1,reuse=1"
-CFG_T = "B1;B1,reuse=1;B1,snappy=1;B1,reuse=1,snappy=1,bloom=1;B1,mmap=0,cache=1"
+CFG_T = "B1;B1,reuse=1;B1,snappy=1,bloom=1,mmap=0"
 
 E3_RULE = ("every history up to the given length over {put-sync, put, put-1KiB, batch-sync(3 updates), del-sync, flush, reopen} plus scripted longer histories "
            "(log rotation, flush, compaction, reopen chains; thorough: a 700-update batch spanning 4 log blocks) x EVERY journal index (system-call boundary) as crash point x image classes "
